@@ -18,7 +18,7 @@ def load_known():
     return json.load(open(p)).get("findings", [])
 
 
-def write_evidence(prop, tier, seed, infos, wall, meta, violations, known_lines):
+def write_evidence(prop, tier, seed, infos, wall, meta, violations, known_lines, partial=False):
     obligations = sum(len(i["obligations"]) for i in infos)
     discharged = sum(1 for i in infos for o in i["obligations"] if o["status"] == "SUCCESS")
     tagged = {(i["harness"], o["description"]) for i in infos for o in i["obligations"]
@@ -89,9 +89,9 @@ def write_evidence(prop, tier, seed, infos, wall, meta, violations, known_lines)
         },
         "assumptions": meta.get("assumptions", []),
     }
-    # runs against a scratch copy of the repository (VP_REPO, used for mutation testing)
-    # must not overwrite the evidence of the real tree
-    evdir = os.path.join(VERIF, "evidence") if runner.REPO == "/repo" else \
+    # runs against a scratch copy of the repository (VP_REPO, used for mutation testing) and
+    # partial runs (--only) must not overwrite the evidence of the real tree's full check
+    evdir = os.path.join(VERIF, "evidence") if runner.REPO == "/repo" and not partial else \
         os.path.join(runner.WORK, "evidence-scratch")
     os.makedirs(evdir, exist_ok=True)
     tmp = os.path.join(evdir, prop + ".json.tmp")
@@ -105,6 +105,9 @@ def check_property(prop, tier, seed, only=None):
     jobs = registry.jobs_for(prop, tier)
     if only:
         jobs = [j for j in jobs if only in j.name]
+        if not jobs:
+            print("[%s] INCONCLUSIVE: --only %s selects no job" % (prop, only))
+            return 2
     known = [k for k in load_known() if k.get("property") == prop and k.get("status") == "open"]
     kjobs = registry.known_jobs_for(prop, tier, known) if known else []
     infos, wall = runner.run_property(prop, tier, jobs + [kj for kj, _ in kjobs], meta, seed)
@@ -147,7 +150,7 @@ def check_property(prop, tier, seed, only=None):
         else:
             print("[%s] known finding %s no longer reproduces (status=%s) - update known_findings.json" % (
                 prop, k["key"], i["status"]))
-    write_evidence(prop, tier, seed, infos, time.time() - t0, meta, nviol, known_lines)
+    write_evidence(prop, tier, seed, infos, time.time() - t0, meta, nviol, known_lines, partial=bool(only))
     if rc == 0:
         print("[%s] HELD within bounds (%s tier, %.1fs)" % (prop, tier, time.time() - t0))
     elif rc == 2:
